@@ -5,6 +5,8 @@ import (
 	"strings"
 	"testing"
 
+	"github.com/cube2222/octosql/execution"
+	"github.com/cube2222/octosql/octosql"
 	"pgregory.net/rapid"
 
 	"verifharness/eng"
@@ -20,6 +22,13 @@ import (
 type c16Case struct {
 	Spec trigkit.GroupBySpec `json:"spec"`
 	Msgs []mon.Msg           `json:"msgs"`
+	// Shape (sql sub-property only) puts a consumer on top of the triggered GROUP BY:
+	//   ""          the GROUP BY alone
+	//   "limit"     <group by> LIMIT n at top level (the output-level transform cmd/root.go picks from Schema.NoRetractions)
+	//   "sub_limit" SELECT q.* FROM (<group by> LIMIT n) q (the nested transform physical/nodes.go picks)
+	//   "regroup"   SELECT q.a0, count(*) FROM (<group by>) q GROUP BY q.a0 (an operator consuming the triggered changelog)
+	Shape string `json:"shape,omitempty"`
+	Limit int    `json:"limit,omitempty"`
 }
 
 func trigString(trig []trigkit.TrigSpec) string {
@@ -70,8 +79,46 @@ func (c c16Case) SQL() string {
 	return "SELECT " + strings.Join(sel, ", ") + " FROM mem.t t GROUP BY " + strings.Join(keys, ", ") + " TRIGGER " + trigString(c.Spec.Trig)
 }
 
+// outCols: the column aliases of SQL().
+func (c c16Case) outCols() []string {
+	var cols []string
+	for i := range c.Spec.Keys {
+		cols = append(cols, fmt.Sprintf("q.k%d", i))
+	}
+	for i := range c.Spec.Aggs {
+		cols = append(cols, fmt.Sprintf("q.a%d", i))
+	}
+	return cols
+}
+
+// ShapedSQL: the GROUP BY under the consumer named by Shape; raw tells whether the plan root is to be taken as is.
+func (c c16Case) ShapedSQL() (sql string, raw bool) {
+	switch c.Shape {
+	case "limit":
+		return fmt.Sprintf("%s LIMIT %d", c.SQL(), c.Limit), false
+	case "sub_limit":
+		return fmt.Sprintf("SELECT %s FROM (%s LIMIT %d) q", strings.Join(c.outCols(), ", "), c.SQL(), c.Limit), true
+	case "regroup":
+		return fmt.Sprintf("SELECT q.a0 AS g, count(*) AS c FROM (%s) q GROUP BY q.a0", c.SQL()), true
+	}
+	return c.SQL(), true
+}
+
 func (c c16Case) String() string {
-	return fmt.Sprintf("%s [time key index %d] over (t,k,x,y) stream: %s", c.SQL(), c.Spec.TimeKey, mon.FormatMsgs(c.Msgs))
+	sql, _ := c.ShapedSQL()
+	return fmt.Sprintf("%s [time key index %d] over (t,k,x,y) stream: %s", sql, c.Spec.TimeKey, fmtMsgsZ(c.Msgs))
+}
+
+// fmtMsgsZ is mon.FormatMsgs plus the zone an event time is expressed in.
+func fmtMsgsZ(msgs []mon.Msg) string {
+	parts := make([]string, len(msgs))
+	for i, m := range msgs {
+		parts[i] = m.String()
+		if m.Kind == "rec" && m.Z != 0 {
+			parts[i] += fmt.Sprintf("(zone %+ds)", m.Z)
+		}
+	}
+	return strings.Join(parts, " ; ")
 }
 
 func validSpec(s trigkit.GroupBySpec) bool {
@@ -181,6 +228,19 @@ func c16Prop(viaSQL bool) func(c c16Case) ev.Outcome {
 		if !validSpec(c.Spec) || trigkit.ValidStream(c.Msgs) != nil {
 			return ev.Outcome{Discard: true}
 		}
+		switch c.Shape {
+		case "":
+		case "limit", "sub_limit":
+			if c.Limit < 1 || !viaSQL {
+				return ev.Outcome{Discard: true}
+			}
+		case "regroup":
+			if !viaSQL {
+				return ev.Outcome{Discard: true}
+			}
+		default:
+			return ev.Outcome{Discard: true}
+		}
 		spec := c.Spec
 		timed, zoned := false, false
 		for _, m := range c.Msgs {
@@ -234,18 +294,72 @@ func c16Prop(viaSQL bool) func(c c16Case) ev.Outcome {
 		if viaSQL {
 			env := eng.Env(map[string]*eng.Table{"t": c.table(timed)})
 			ctx := eng.Context()
+			sql, raw := c.ShapedSQL()
 			for _, optimize := range []bool{true, false} {
-				plan, cerr := eng.Compile(ctx, c.SQL(), env, eng.Options{Optimize: optimize, Raw: true})
+				plan, cerr := eng.Compile(ctx, sql, env, eng.Options{Optimize: optimize, Raw: raw})
 				if cerr != nil {
 					return ev.Fail("%s\n  does not compile (optimize=%v): %v", c.String(), optimize, cerr)
 				}
-				outs, err := plan.Run(ctx)
+				// every emitted record is snapshotted (list payloads included) when it is emitted
+				outs, err := mon.RunCtxDeep(execution.ExecutionContext{Context: ctx}, plan.Exec)
 				if err != nil {
 					return ev.Fail("%s\n  failed (optimize=%v): %v", c.String(), optimize, err)
 				}
-				onlyEOS := len(spec.Trig) == 1 && spec.Trig[0].Kind == "eos"
-				if bad := check(fmt.Sprintf("through SQL (optimize=%v)", optimize), outs, !onlyEOS); bad != nil {
-					return *bad
+				what := fmt.Sprintf("through SQL (optimize=%v)", optimize)
+				switch c.Shape {
+				case "":
+					onlyEOS := len(spec.Trig) == 1 && spec.Trig[0].Kind == "eos"
+					if bad := check(what, outs, !onlyEOS); bad != nil {
+						return *bad
+					}
+				case "limit", "sub_limit":
+					// LIMIT n without ORDER BY: any n rows of the result (all of them when there are at most n)
+					got, err := mon.Consolidate(outs)
+					if err != nil {
+						return ev.Fail("%s\n  %s: %v\n  output: %s", c.String(), what, err, mon.FormatOuts(outs))
+					}
+					total := 0
+					for k, n := range got {
+						total += n
+						if n < 0 || n > want[k] {
+							return ev.Fail("%s\n  %s: the consolidated output %s holds %dx(%s), the batch grouping of the consolidated input is %s\n  output: %s",
+								c.String(), what, got.String(), n, k, want.String(), mon.FormatOuts(outs))
+						}
+					}
+					wantN := len(wantRows)
+					if c.Limit < wantN {
+						wantN = c.Limit
+					}
+					if total != wantN {
+						return ev.Fail("%s\n  %s: the consolidated output holds %d rows %s; LIMIT %d over the batch grouping of the consolidated input (%d rows: %s) holds %d\n  output: %s",
+							c.String(), what, total, got.String(), c.Limit, len(wantRows), want.String(), wantN, mon.FormatOuts(outs))
+					}
+				case "regroup":
+					got, err := mon.Consolidate(outs)
+					if err != nil {
+						return ev.Fail("%s\n  %s: %v\n  output: %s", c.String(), what, err, mon.FormatOuts(outs))
+					}
+					// the batch grouping regrouped by its first aggregate
+					cnt := map[string]int64{}
+					val := map[string]gen.JV{}
+					var order []string
+					for _, row := range wantRows {
+						g := row[len(spec.Keys)]
+						k := mon.RowKey(gen.Octs([]gen.JV{g}))
+						if _, ok := cnt[k]; !ok {
+							order = append(order, k)
+							val[k] = g
+						}
+						cnt[k]++
+					}
+					want2 := mon.Bag{}
+					for _, k := range order {
+						want2[mon.RowKey(gen.Octs([]gen.JV{val[k], gen.Int(cnt[k])}))]++
+					}
+					if !got.Equal(want2) {
+						return ev.Fail("%s\n  %s: the consolidated output is %s; the batch grouping of the consolidated input is %s, regrouped by its aggregate a0: %s\n  output: %s",
+							c.String(), what, got.String(), want.String(), want2.String(), mon.FormatOuts(outs))
+					}
 				}
 			}
 		}
@@ -261,7 +375,7 @@ func c16Prop(viaSQL bool) func(c c16Case) ev.Outcome {
 		if err != nil {
 			return ev.Fail("%s\n  SimpleGroupBy cannot be built: %v", c.String(), err)
 		}
-		souts, err := mon.Run(simple)
+		souts, err := mon.RunDeep(simple)
 		if err != nil {
 			return ev.Fail("%s\n  SimpleGroupBy failed: %v", c.String(), err)
 		}
@@ -288,6 +402,33 @@ func c16Prop(viaSQL bool) func(c c16Case) ev.Outcome {
 		}
 		if zoned {
 			o.Classes = append(o.Classes, "zoned_time_field")
+		}
+		o.Classes = append(o.Classes, zoneClasses(c)...)
+		if arrayAggShifts(outs, spec) {
+			o.Classes = append(o.Classes, "array_agg_key_refired_with_shifted_list_contents")
+		}
+		if viaSQL {
+			shape := c.Shape
+			if shape == "" {
+				shape = "group_by_alone"
+			}
+			o.Classes = append(o.Classes, "sql_shape_"+shape)
+			if c.Shape == "limit" || c.Shape == "sub_limit" {
+				if c.Limit >= len(wantRows) {
+					o.Classes = append(o.Classes, "limit_ge_number_of_groups")
+				} else {
+					o.Classes = append(o.Classes, "limit_lt_number_of_groups")
+				}
+			}
+			if c.Shape != "" && len(spec.Trig) > 1 {
+				o.Classes = append(o.Classes, "multi_trigger_under_consumer")
+				if !hasKind(spec.Trig, "counting") {
+					o.Classes = append(o.Classes, "multi_trigger_watermark+eos_under_consumer")
+					if o.NonTrivial || refiredAtAll(outs, spec) {
+						o.Classes = append(o.Classes, "multi_trigger_watermark+eos_under_consumer_refires_a_key")
+					}
+				}
+			}
 		}
 		if spec.TimeKey >= 0 {
 			o.Classes = append(o.Classes, "time_field_in_key")
@@ -330,6 +471,93 @@ func c16Prop(viaSQL bool) func(c c16Case) ev.Outcome {
 	}
 }
 
+// zoneClasses labels the time-zone representations of a stream.
+func zoneClasses(c c16Case) []string {
+	var out []string
+	// event instant -> number of records carrying it, and whether one of them is expressed in a non-UTC zone (every such
+	// record holds a *time.Location of its own, so it differs as a Go value from every other record of the same instant).
+	// Nothing arrives at or below a sent watermark, hence all records of one instant sit in the event-time buffer together.
+	n := map[int64]int{}
+	nonUTC := map[int64]bool{}
+	field := map[int64]map[int]bool{}
+	evZoned := false
+	for _, m := range c.Msgs {
+		if m.Kind != "rec" {
+			continue
+		}
+		if m.T != 0 {
+			n[m.T]++
+			if m.Z != 0 {
+				nonUTC[m.T] = true
+			}
+			if n[m.T] >= 2 && nonUTC[m.T] {
+				evZoned = true
+			}
+		}
+		tv := m.Vals[0]
+		if field[tv.I] == nil {
+			field[tv.I] = map[int]bool{}
+		}
+		field[tv.I][tv.Z] = true
+	}
+	if evZoned {
+		out = append(out, "equal_event_instants_buffered_in_different_time_representations")
+	}
+	for _, zs := range field {
+		if len(zs) >= 2 {
+			out = append(out, "time_field_instant_in_two_zone_spellings")
+			break
+		}
+	}
+	return out
+}
+
+func isArrayAgg(name string) bool { return strings.HasPrefix(name, "array_agg") }
+
+// arrayAggShifts: some key is emitted twice by the trigger group-by with an array_agg list whose common-index part
+// changed (an element moved or disappeared), i.e. the later list is not the earlier one with elements appended.
+func arrayAggShifts(outs []mon.Out, spec trigkit.GroupBySpec) bool {
+	last := map[string][]octosql.Value{}
+	for _, x := range outs {
+		if x.IsWM || x.Rec.Retraction {
+			continue
+		}
+		id := mon.RowKey(x.Rec.Values[:len(spec.Keys)])
+		for i, a := range spec.Aggs {
+			if !isArrayAgg(a.Name) {
+				continue
+			}
+			v := x.Rec.Values[len(spec.Keys)+i]
+			if v.TypeID != octosql.TypeIDList {
+				continue
+			}
+			k := fmt.Sprintf("%s#%d", id, i)
+			if old, ok := last[k]; ok {
+				if len(v.List) < len(old) {
+					return true
+				}
+				for j := range old {
+					if old[j].Compare(v.List[j]) != 0 {
+						return true
+					}
+				}
+			}
+			last[k] = v.List
+		}
+	}
+	return false
+}
+
+// refiredAtAll: some key is emitted twice (at any time, the firing at end of stream included).
+func refiredAtAll(outs []mon.Out, spec trigkit.GroupBySpec) bool {
+	for _, n := range emissionsBeforeEnd(outs, len(outs), spec) {
+		if n >= 2 {
+			return true
+		}
+	}
+	return false
+}
+
 // emissionsBeforeEnd counts, per group key, the non-retraction records among outs[:upto].
 func emissionsBeforeEnd(outs []mon.Out, upto int, spec trigkit.GroupBySpec) map[string]int {
 	n := map[string]int{}
@@ -347,6 +575,8 @@ var c16AggPool = []trigkit.AggSpec{
 	{Name: "sum", Col: 3, Kind: "float"}, {Name: "avg", Col: 3, Kind: "float"}, {Name: "min", Col: 3, Kind: "float"}, {Name: "count_distinct", Col: 2, Kind: "int"},
 	{Name: "sum_distinct", Col: 2, Kind: "int"}, {Name: "avg_distinct", Col: 3, Kind: "float"}, {Name: "array_agg", Col: 2, Kind: "int"}, {Name: "array_agg_distinct", Col: 3, Kind: "float"},
 	{Name: "max", Col: 0, Kind: "time"}, {Name: "count", Col: 1, Kind: "int"}, {Name: "sum", Col: 1, Kind: "int"},
+	// lists that shift between firings: x arrives in any order and is retracted
+	{Name: "array_agg", Col: 2, Kind: "int"}, {Name: "array_agg_distinct", Col: 2, Kind: "int"}, {Name: "array_agg", Col: 3, Kind: "float"}, {Name: "array_agg", Col: 1, Kind: "int"},
 }
 
 type keyChoice struct {
@@ -380,18 +610,51 @@ func genTrig(t *rapid.T, watermarkOK bool) []trigkit.TrigSpec {
 	}
 }
 
-func genCase(maxLen int) func(t *rapid.T) c16Case {
+func genCase(maxLen int, shapes bool) func(t *rapid.T) c16Case {
 	return func(t *rapid.T) c16Case {
+		shape, limit := "", 0
+		forceWmEos := false
+		if shapes {
+			// four in ten of the sql cases put a consumer on top of the triggered GROUP BY
+			switch rapid.IntRange(0, 9).Draw(t, "shape") {
+			case 5, 6:
+				shape = "limit"
+			case 7:
+				shape = "sub_limit"
+			case 8, 9:
+				shape = "regroup"
+			}
+			if shape == "limit" || shape == "sub_limit" {
+				limit = rapid.IntRange(1, 6).Draw(t, "limit")
+			}
+			// the multi trigger whose parts are each retraction-free but which fires a key twice
+			forceWmEos = shape != "" && rapid.IntRange(0, 2).Draw(t, "wm_eos") == 0
+		}
 		kc := rapid.SampledFrom(c16KeyChoices).Draw(t, "keys")
+		if forceWmEos && kc.timeKey < 0 {
+			kc = c16KeyChoices[rapid.SampledFrom([]int{0, 1, 2}).Draw(t, "time_keys")]
+		}
 		spec := trigkit.GroupBySpec{Keys: kc.keys, TimeKey: kc.timeKey}
-		spec.Trig = genTrig(t, kc.timeKey >= 0)
+		if forceWmEos {
+			spec.Trig = []trigkit.TrigSpec{{Kind: "watermark"}, {Kind: "eos"}}
+			if rapid.Bool().Draw(t, "eos_first") {
+				spec.Trig = []trigkit.TrigSpec{{Kind: "eos"}, {Kind: "watermark"}}
+			}
+		} else {
+			spec.Trig = genTrig(t, kc.timeKey >= 0)
+		}
 		na := rapid.IntRange(1, 3).Draw(t, "naggs")
 		for i := 0; i < na; i++ {
 			spec.Aggs = append(spec.Aggs, rapid.SampledFrom(c16AggPool).Draw(t, "agg"))
 		}
 		mode := rapid.IntRange(0, 4).Draw(t, "stream_mode") // 0: untimed; 1,2: event time == t; 3,4: event time <= t
-		msgs := trigkit.Stream(t, trigkit.StreamOpts{Timed: mode > 0, Below: mode >= 3, MaxLen: maxLen})
-		if rapid.IntRange(0, 9).Draw(t, "zoned") == 0 {
+		if forceWmEos && mode == 0 {
+			mode = 1
+		}
+		// zone representations: 0-3 everything UTC; 4-6 event times in drawn zones; 7-8 also column t in drawn zones; 9 column t of every row +01:00
+		zmode := rapid.IntRange(0, 9).Draw(t, "zone_mode")
+		msgs := trigkit.Stream(t, trigkit.StreamOpts{Timed: mode > 0, Below: mode >= 3, MaxLen: maxLen, EventZones: zmode >= 4 && zmode <= 8, FieldZones: zmode == 7 || zmode == 8})
+		if zmode == 9 {
 			// the time field written with a +01:00 offset, as a file with local timestamps has it
 			for i := range msgs {
 				if msgs[i].Kind == "rec" {
@@ -401,20 +664,20 @@ func genCase(maxLen int) func(t *rapid.T) c16Case {
 				}
 			}
 		}
-		return c16Case{Spec: spec, Msgs: msgs}
+		return c16Case{Spec: spec, Msgs: msgs, Shape: shape, Limit: limit}
 	}
 }
 
 func TestC16(t *testing.T) {
 	r := ev.New("C16", "exploration",
-		"a generated GROUP BY (keys: (t,k), (k,t), (t), (k), (k,x) over columns t Time [the time field], k Int, x Int|NULL, y Float|NULL; 1-3 aggregates from count(*)/count/sum/avg/min/max/array_agg and DISTINCT variants over Int, dyadic Float and Time inputs) "+
+		"a generated GROUP BY (keys: (t,k), (k,t), (t), (k), (k,x) over columns t Time [the time field], k Int, x Int|NULL, y Float|NULL; 1-3 aggregates from count(*)/count/sum/avg/min/max/array_agg and DISTINCT variants over Int, dyadic Float and Time inputs; array_agg / array_agg(DISTINCT) over x, y and k are a quarter of the pool, x arrives in any order and is retracted, so the list of a key that fires again has shifted contents) "+
 			"with every non-empty subset of {COUNTING n (n in 1..4), ON WATERMARK (only when t is a key, as the typechecker demands), ON END OF STREAM} in any clause order, over generated changelogs with retractions "+
-			"(untimed; timed with event time == time field as max_diff_watermark produces; timed with event time <= time field as tumble produces; watermarks non-decreasing, nothing late; one case in ten writes the time field with a +01:00 offset). "+
-			"nodes: nodes.NewCustomTriggerGroupBy and nodes.NewSimpleGroupBy built directly with the real aggregate prototypes; sql: the same cases as SELECT ... GROUP BY ... TRIGGER ... through parser, typechecker, optimizer (on and off) and materialiser over an in-memory table. "+
-			"Oracle: mon.Consolidate of the output changelog (flags a retraction of an absent row) must equal the batch grouping, by the reference model, of the consolidated input: one row per key present in the net input, aggregates over non-NULL inputs, NULL when none. "+
+			"(untimed; timed with event time == time field as max_diff_watermark produces; timed with event time <= time field as tumble produces; watermarks non-decreasing, nothing late; half of the timed cases express every record's event time in a drawn zone (UTC, +01:00, +05:30, -02:00, a *time.Location of its own per record), so equal instants buffered together as different time.Time values are frequent; two cases in ten also write column t of every row in a drawn zone, one in ten writes it with +01:00 throughout). "+
+			"nodes: nodes.NewCustomTriggerGroupBy and nodes.NewSimpleGroupBy built directly with the real aggregate prototypes; sql: the same cases as SELECT ... GROUP BY ... TRIGGER ... through parser, typechecker, optimizer (on and off) and materialiser over an in-memory table; six in ten alone, the others under a consumer that relies on the planner's description of the triggered changelog: <group by> LIMIT n at top level (output transform chosen as cmd/root.go chooses it), SELECT ... FROM (<group by> LIMIT n) q, and SELECT q.a0, count(*) FROM (<group by>) q GROUP BY q.a0; four in ten of those use TRIGGER ON WATERMARK, ON END OF STREAM (each part fires a key once, together twice). Under LIMIT n the consolidated output must be min(n, number of groups) rows of the batch grouping; the regrouping must equal the batch grouping regrouped. "+
+			"Oracle: every emitted record is snapshotted (list payloads copied) when it is emitted; mon.Consolidate of the output changelog (flags a retraction that does not name a row sent before and still present) must equal the batch grouping, by the reference model, of the consolidated input: one row per key present in the net input, aggregates over non-NULL inputs, NULL when none. "+
 			"non-trivial: some key is emitted at least twice before the end of the stream",
 		"a retraction repeats the row of its insertion, with an event time not below the insertion's; watermarks never decrease and no record arrives at or below a sent watermark (C18)")
 	c16Rec = r
-	ev.Check(t, r, "nodes", ev.N(100000, 3000000), genCase(30), c16Prop(false))
-	ev.Check(t, r, "sql", ev.N(6000, 200000), genCase(16), c16Prop(true))
+	ev.Check(t, r, "nodes", ev.N(100000, 3000000), genCase(30, false), c16Prop(false))
+	ev.Check(t, r, "sql", ev.N(6000, 200000), genCase(16, true), c16Prop(true))
 }
